@@ -68,23 +68,24 @@ NOTES = {
 
 # round 2: what every run additionally contains (DESIGN.md section 10)
 SOUP = " Plus instruction soups: 300,000 (quick) model-guided straight-line programs of 4-48 instructions of every form, run back to back in lockstep with the reference (state after every instruction, memory at the end), and primers: 1 case in 16 preceded by a failing step, 1 memory-operand case in 6 by a sibling encoding, on the same emulator. Saved failing inputs of seeded changes (corpus/regress) are re-judged first."
+ENVDIM = " The log level, the loader's record of the exit address and the time base are generated dimensions of every case (an instruction's behaviour must not depend on them)."
 ROUND2 = {
- "C01": SOUP, "C02": SOUP, "C03": SOUP, "C04": SOUP + " Operands inside the instruction itself are a class.", "C08": SOUP,
- "C07": SOUP + " A form-balanced phase (2M cases from every family's structured builder) complements the uniform word enumeration; thorough: libFuzzer over raw instruction streams in lockstep (fuzz_prog).",
- "C20": SOUP + " In the soups every instruction's charge is compared; thorough: fuzz_prog.",
- "C05": " Primers as in C01-C04; saved failing inputs of seeded changes are re-judged first.",
- "C06": " Histories also rewrite vector-table entries on the way (MES set_handler, guest stores); soups with interrupts raised between arbitrary instruction forms (each vector its own RTE stub).",
- "C09": " Histories store and load through every addressing mode, place the instruction right next to the word it accesses, and interleave instruction fetches; all harness set-up writes go through Bus::write.",
+ "C01": SOUP + ENVDIM, "C02": SOUP + ENVDIM, "C03": SOUP + ENVDIM, "C04": SOUP + " Operands inside the instruction itself are a class." + ENVDIM, "C08": SOUP + ENVDIM,
+ "C07": SOUP + " A form-balanced phase (2M cases from every family's structured builder) complements the uniform word enumeration; thorough: libFuzzer over raw instruction streams in lockstep (fuzz_prog)." + ENVDIM,
+ "C20": SOUP + " In the soups every instruction's charge is compared - also with interrupts accepted between the instructions; thorough: fuzz_prog." + ENVDIM,
+ "C05": " Primers as in C01-C04; saved failing inputs of seeded changes are re-judged first; one stack frame in eight at an odd address." + ENVDIM,
+ "C06": " Histories also rewrite vector-table entries on the way (MES set_handler, guest stores); soups with interrupts raised between arbitrary instruction forms (each vector its own RTE stub); one stack frame in eight at an odd address." + ENVDIM,
+ "C09": " Histories store and load through every addressing mode, place the instruction right next to the word it accesses, and interleave instruction fetches; all harness set-up writes go through Bus::write (guarded: a panicking store is a violation). Time passes inside the histories (timer counting, or quiet ticks with nothing written); plain locations that mirror owned registers are an address class.",
  "C10": " Bursts of 255-65537 requests; soups with interrupts raised between arbitrary instruction forms.",
  "C11": " GOT values related to the table, the load base and each other; string tables with shared tails.",
  "C12": " Symbol-table fields over their whole range (reserved section indices), string tables with shared tails and unreferenced strings.",
- "C13": " Re-runs suspended and resumed over the control channel from a second thread must give byte-identical results; timer events placed in the program's last instruction (request pending at the exit address).",
+ "C13": " Re-runs suspended and resumed over the control channel from a second thread must give byte-identical results; timer events placed in the program's last instruction (request pending at the exit address); programs constructed so that one instruction crosses a sync threshold and completes a pacing period of the loop. The real binary runs with --log at the case's level.",
  "C14": " Newline-structure classes (a newline-free tail of 2^10-2^12 bytes behind the last newline) and texts up to 4096 bytes in the console sequences.",
- "C15": " The interrupt poll after each step keeps the step's flags and PC; lines over real TCP (early stops, over-long lines, non-UTF-8) with panics of the emulator's own threads counted.",
- "C16": " Word stores over two ports' DRs and stray writes to aliases of the port registers.",
- "C17": " Writes to the other channels' registers and to aliases; the re-partitioned run reaches the registers through guest instructions (every addressing mode).",
- "C18": " TCP phase: ignored lines of 2^12-2^17 bytes whose tail reads like a command, lines that are not UTF-8; a loop that keeps emitting sync messages but acts on no line is reported as deaf.",
- "C19": " Transition walk with silent bursts of 255-65537 register writes and stray writes to aliases; both neighbours of every excluded address block.",
+ "C15": " The interrupt poll after each step keeps the step's flags and PC; lines over real TCP (early stops, over-long lines, non-UTF-8) with panics of the emulator's own threads counted; run()-level programs with the stack in on-chip register space, at region edges or unmapped while timer requests arrive; panics under the harness's own set-up stores are reported.",
+ "C16": " Word stores over two ports' DRs and stray writes to aliases of the port registers (incl. the same offset in the other register block); the empty history on a fresh Cpu.",
+ "C17": " Writes to the other channels' registers and to aliases; the re-partitioned run reaches the registers through guest instructions (every addressing mode); masked windows with acknowledgements on the way; the empty history on a fresh Cpu.",
+ "C18": " TCP phase: ignored lines of 2^12-2^17 bytes whose tail reads like a command, lines that are not UTF-8; a loop that keeps emitting sync messages but acts on no line is reported as deaf (also when it never acts on the handshake line); real-binary runs with -m, -i and --log <level> varied.",
+ "C19": " Transition walk with silent bursts of 255-65537 register writes and stray writes to aliases; both neighbours of every excluded address block; the rest of the machine (other registers, pin levels) changes on the way and no cost may follow; costs at power-on follow what the settings registers read.",
 }
 ALL = ["C%02d" % i for i in range(1, 21)]
 manifest = {
